@@ -35,6 +35,27 @@ theorem reachable {l : IL} (h : l.Inv) (i : Nat) (hi : i < l.items.length) :
   refine ⟨h.1 i hi, ?_⟩
   rw [h.get_eq_spec, if_pos (List.getElem_mem hi)]
 
+/-- **renaming an element to the name it already has changes nothing**: the list stays coherent, holds the same names,
+    and the element is still found by its name at its position (the remove-old / insert-new order of `rename_item`
+    matters exactly here: inserting first and removing afterwards would drop the element from the index) -/
+theorem rename_to_same_name {l : IL} (h : l.Inv) (i : Nat) (n : String) (hi : l.items[i]? = some n) :
+    (l.renameItem i n).Inv ∧ (l.renameItem i n).items = l.items ∧ (l.renameItem i n).index n = some i := by
+  have hinv := renameItem_inv l i n h (Or.inr hi)
+  have hitems : (l.renameItem i n).items = l.items := by
+    rw [renameItem_items]
+    obtain ⟨hlt, hget⟩ := List.getElem?_eq_some_iff.1 hi
+    apply List.ext_getElem (by simp)
+    intro j h1 h2
+    by_cases hj : i = j
+    · subst hj; simp [hget]
+    · simp [List.getElem_set, hj]
+  refine ⟨hinv, hitems, ?_⟩
+  obtain ⟨hlt, hget⟩ := List.getElem?_eq_some_iff.1 hi
+  have hlt' : i < (l.renameItem i n).items.length := by rw [hitems]; exact hlt
+  have := (reachable hinv i hlt').1
+  have hn : (l.renameItem i n).items[i] = n := by simp [hitems, hget]
+  rwa [hn] at this
+
 /-- names that are not stored (removed, renamed away) are not reachable -/
 theorem unreachable {l : IL} (h : l.Inv) (k : String) (hk : k ∉ l.items) :
     l.index k = none ∧ l.get k = .ok none ∧ l.containsKey k = false := by
